@@ -206,10 +206,11 @@ Value Endgame<kKPK>::strongSideScore(const Position& position) const
         position.piece_position(make_piece(strongSide, PAWN), 0);
 
     bitbase::normalize(strongSide, side, strongKingSq, strongPawn, weakKingSq);
+    // bitbase::normalize has already mirrored the pawn to the strong side's point of view
     if (!bitbase::check(side, strongKingSq, strongPawn, weakKingSq))
-        return VALUE_POSITIVE_DRAW + Value(rank(normalize(strongPawn, strongSide)));
+        return VALUE_POSITIVE_DRAW + Value(rank(strongPawn));
 
-    return VALUE_KNOWN_WIN + Value(rank(normalize(strongPawn, strongSide)));
+    return VALUE_KNOWN_WIN + Value(rank(strongPawn));
 }
 
 template <>
